@@ -1,1 +1,31 @@
-fn main() { println!("vcheck"); }
+mod fingerprint;
+mod plangen;
+mod oracles;
+mod props;
+mod runner;
+mod world;
+
+fn main() {
+    // quiet panics: payloads are captured by catch_unwind where they matter
+    std::panic::set_hook(Box::new(|info| {
+        if std::env::var("VCHECK_SHOW_PANICS").is_ok() {
+            eprintln!("panic: {info}");
+        }
+    }));
+    world::sweep_stale_scratch();
+    let args = match runner::parse_args() {
+        Ok(a) => a,
+        Err(e) => {
+            eprintln!("{e}");
+            std::process::exit(2);
+        }
+    };
+    let code = match args.id.as_str() {
+        "C01" => props::c01::main(&args),
+        other => {
+            eprintln!("unknown property {other}");
+            2
+        }
+    };
+    std::process::exit(code);
+}
